@@ -167,12 +167,12 @@ def run_workload(hbin, args, tag, extra_env=None):
         p = subprocess.run([hbin] + [str(a) for a in args], stdout=f, stderr=subprocess.PIPE, text=True, env=env)
     if p.returncode != 0:
         raise Fail("harness %s %s exited with %d: %s" % (hbin, args, p.returncode, p.stderr[-2000:]))
-    # the driver is a pure function of its input: when it is killed from outside (signal, e.g. memory pressure of the
-    # machine) it is run again; a deterministic failure fails again and is reported with its exit status
+    # the driver is a pure function of its input: when it fails (killed from outside, exec failure under load) it is run
+    # again; a deterministic failure fails three times and is reported with its exit status
     for attempt in range(3):
         with open(lines_path) as fi, open(out_path, "w") as fo:
             p = subprocess.run([DRIVER], stdin=fi, stdout=fo, stderr=subprocess.PIPE, text=True)
-        if p.returncode >= 0:
+        if p.returncode == 0:
             break
         time.sleep(5 * (attempt + 1))
     if p.returncode != 0:
